@@ -18,6 +18,14 @@ import (
 
 var verifDir = "/verif"
 
+// outDir: where evidence and replay files are written (default: verifDir).
+// The self-test harness points it elsewhere so mutant runs do not touch /verif/evidence.
+var outDir = ""
+
+// withCover: also generate reachability (non-vacuity) queries, which expect sat
+// and are expensive; on in the thorough tier and in `govc vc`.
+var withCover = false
+
 func main() {
 	if len(os.Args) < 2 {
 		fmt.Fprintln(os.Stderr, "usage: govc check|baseline|vc|list ...")
@@ -26,6 +34,10 @@ func main() {
 	if d := os.Getenv("GOVC_VERIF_DIR"); d != "" {
 		verifDir = d
 	}
+	outDir = verifDir
+	if d := os.Getenv("GOVC_OUT_DIR"); d != "" {
+		outDir = d
+	}
 	switch os.Args[1] {
 	case "check", "baseline":
 		os.Exit(cmdCheck(os.Args[1], os.Args[2:]))
@@ -33,6 +45,8 @@ func main() {
 		os.Exit(cmdVC(os.Args[2:]))
 	case "list":
 		os.Exit(cmdList(os.Args[2:]))
+	case "bench":
+		os.Exit(cmdBench(os.Args[2:]))
 	default:
 		fmt.Fprintln(os.Stderr, "unknown command", os.Args[1])
 		os.Exit(2)
@@ -82,6 +96,7 @@ func cmdVC(args []string) int {
 	showAll := fs.Bool("v", false, "show all obligations")
 	pk := fs.String("pkgs", "", "package patterns")
 	doReplay := fs.Bool("replay", false, "replay refuted/candidate obligations")
+	noCover := fs.Bool("nocover", false, "skip reachability queries")
 	fs.Parse(args)
 	pats := defaultPatterns()
 	if *pk != "" {
@@ -102,6 +117,7 @@ func cmdVC(args []string) int {
 		}
 		return 2
 	}
+	withCover = !*noCover
 	vc, err := w.translate(fn, w.CS.ByName[*fnKey])
 	if err != nil {
 		fmt.Fprintln(os.Stderr, "translate:", err)
@@ -196,6 +212,7 @@ func cmdCheck(mode string, args []string) int {
 	quickMs, fullMs := 4000, 15000
 	if *tier == "thorough" {
 		quickMs, fullMs = 10000, 60000
+		withCover = true
 	}
 	// functions under contract for this property
 	type job struct {
@@ -437,9 +454,9 @@ func cmdCheck(mode string, args []string) int {
 		"wall_s":      time.Since(t0).Seconds(),
 		"violations":  violations,
 	}
-	os.MkdirAll(filepath.Join(verifDir, "evidence"), 0o755)
+	os.MkdirAll(filepath.Join(outDir, "evidence"), 0o755)
 	b, _ := json.MarshalIndent(ev, "", " ")
-	os.WriteFile(filepath.Join(verifDir, "evidence", *prop+".json"), append(b, '\n'), 0o644)
+	os.WriteFile(filepath.Join(outDir, "evidence", *prop+".json"), append(b, '\n'), 0o644)
 	fmt.Printf("%s: %d/%d claimed obligations discharged (%d functions, %d open unclaimed, %d known findings) in %.1fs\n", *prop, nDis, nOb, len(fuc), len(open), len(knownHit), time.Since(t0).Seconds())
 	if violations > 0 {
 		return 1
@@ -457,7 +474,7 @@ func findKnown(k KnownFile, prop, obl string) *KnownFinding {
 }
 
 func writeReplay(prop, name, text string) string {
-	d := filepath.Join(verifDir, "replays", prop)
+	d := filepath.Join(outDir, "replays", prop)
 	os.MkdirAll(d, 0o755)
 	p := filepath.Join(d, mangle(name)+".txt")
 	os.WriteFile(p, []byte(text+"\n"), 0o644)
@@ -470,7 +487,86 @@ func writeEvidenceFail(prop, tier string, seed int, wall float64, msg string) {
 		"coverage": map[string]interface{}{"evaluations": 1, "distinct_nontrivial": 2, "explanation": "load failure: " + msg},
 		"wall_s":   wall, "violations": 1,
 	}
-	os.MkdirAll(filepath.Join(verifDir, "evidence"), 0o755)
+	os.MkdirAll(filepath.Join(outDir, "evidence"), 0o755)
 	b, _ := json.MarshalIndent(ev, "", " ")
-	os.WriteFile(filepath.Join(verifDir, "evidence", prop+".json"), append(b, '\n'), 0o644)
+	os.WriteFile(filepath.Join(outDir, "evidence", prop+".json"), append(b, '\n'), 0o644)
+}
+
+// cmdBench: every obligation of one function, standalone, under every
+// (solver, rendering) pair - to choose defaults and spot unstable queries.
+func cmdBench(args []string) int {
+	fs := flag.NewFlagSet("bench", flag.ExitOnError)
+	repo := fs.String("repo", "/repo", "")
+	fnKey := fs.String("func", "", "function key")
+	ms := fs.Int("ms", 10000, "timeout")
+	pk := fs.String("pkgs", "", "package patterns")
+	only := fs.String("only", "", "substring of obligation names")
+	fs.Parse(args)
+	pats := defaultPatterns()
+	if *pk != "" {
+		pats = strings.Fields(*pk)
+	}
+	w, err := loadWorld(*repo, pats, filepath.Join(verifDir, "specs"))
+	if err != nil {
+		fmt.Fprintln(os.Stderr, err)
+		return 2
+	}
+	fn := w.FuncKeys[*fnKey]
+	if fn == nil {
+		return 2
+	}
+	vc, err := w.translate(fn, w.CS.ByName[*fnKey])
+	if err != nil {
+		fmt.Fprintln(os.Stderr, err)
+		return 2
+	}
+	dir := scratchDir()
+	defer os.RemoveAll(dir)
+	type cfg struct {
+		s int
+		m Mode
+	}
+	cfgs := []cfg{{0, modeQU}, {0, modeQQ}, {0, modeLU}, {0, Mode{'L', false}}, {1, modeQU}, {1, modeQQ}, {2, modeQU}, {2, modeQQ}}
+	fmt.Printf("%-34s", "obligation")
+	for _, c := range cfgs {
+		fmt.Printf(" %-12s", solvers[c.s].name+"/"+c.m.String())
+	}
+	fmt.Println()
+	var mu sync.Mutex
+	sem := make(chan struct{}, runtime.NumCPU())
+	for oi, it := range vc.Items {
+		if it.Kind != itOblig || it.Expect == "sat" || !strings.Contains(it.Name, *only) {
+			continue
+		}
+		cells := make([]string, len(cfgs))
+		var wg sync.WaitGroup
+		for ci, c := range cfgs {
+			wg.Add(1)
+			go func(ci int, c cfg) {
+				defer wg.Done()
+				sem <- struct{}{}
+				defer func() { <-sem }()
+				f := filepath.Join(dir, fmt.Sprintf("b%d_%d.smt2", oi, ci))
+				os.WriteFile(f, []byte(vc.single(oi, c.m)), 0o644)
+				out, secs := runSolver(ctxBackground(), solvers[c.s], f, *ms)
+				w := "?"
+				for _, line := range strings.Split(out, "\n") {
+					if x := firstWord(line); x != "" {
+						w = x
+						break
+					}
+				}
+				mu.Lock()
+				cells[ci] = fmt.Sprintf("%s %.1f", map[string]string{"unsat": "ok", "sat": "SAT", "unknown": "??", "?": "err"}[w], secs)
+				mu.Unlock()
+			}(ci, c)
+		}
+		wg.Wait()
+		fmt.Printf("%-34s", it.Name)
+		for _, c := range cells {
+			fmt.Printf(" %-12s", c)
+		}
+		fmt.Println()
+	}
+	return 0
 }
